@@ -1,6 +1,7 @@
 import Feox.Fmt.Recover
 import Feox.Fmt.Migrate
 import Feox.Fmt.RepCheck
+import Feox.Fmt.CleanCheck
 import Feox.Proto.Generations
 /-! Line-protocol front end for the `Fmt` model. -/
 namespace Feox.Drv.FmtDrv
@@ -213,7 +214,9 @@ def handleIO (args : List String) : IO (Option String) := do
     | some v, some ls =>
       let raw ← IO.FS.readBinFile path
       let img := imageOfBytes raw
-      pure (some (repLine img v (ls.map fun l => { l with blocks := extentBlocks v l.key.length l.valueLen })))
+      let lives := ls.map fun l => { l with blocks := extentBlocks v l.key.length l.valueLen }
+      -- … and the hypotheses of `Fmt.recover_clean_image` (the whole open writes nothing and shows exactly these records)
+      pure (some (repLine img v lives ++ s!" clean={if openCleanB img raw.size lives then 1 else 0}"))
     | _, _ => pure none
   | ["gens", now, gens] =>
     -- generation-level view (Proto.Generations): what a completed recovery exposes per key
